@@ -391,3 +391,14 @@ func CtxAfterFunc(ctx context.Context, f func()) (stop func() bool) {
 		return true
 	}
 }
+
+// Elapsed returns the virtual time that has passed in the current controlled execution
+// (0 outside one).
+//
+//go:norace
+func Elapsed() time.Duration {
+	if e := cur; e != nil {
+		return e.vnow
+	}
+	return 0
+}
